@@ -914,6 +914,32 @@ pub trait BitSetLike {
     fn bs_reset_next(&mut self) -> Option<usize>;
     fn bs_reset_all(&mut self) -> Vec<i64>;
     fn bs_cap(&self) -> usize;
+    const HAS_RESET_NEXT: bool = true;
+}
+// cal zero_copy_connection UsedChunkList: a bit map of the chunks a receiver owns (insert / remove_all)
+type RelUcl = iceoryx2_cal::zero_copy_connection::used_chunk_list::RelocatableUsedChunkList;
+type FixUcl<const N: usize> = iceoryx2_cal::zero_copy_connection::used_chunk_list::FixedSizeUsedChunkList<N>;
+impl BitSetLike for RelUcl {
+    fn bs_set(&mut self, k: usize) -> bool { self.insert(k) }
+    fn bs_reset_next(&mut self) -> Option<usize> { None }
+    fn bs_reset_all(&mut self) -> Vec<i64> {
+        let mut v = vec![];
+        self.remove_all(|k| v.push(k as i64));
+        v
+    }
+    fn bs_cap(&self) -> usize { self.capacity() }
+    const HAS_RESET_NEXT: bool = false;
+}
+impl<const N: usize> BitSetLike for FixUcl<N> {
+    fn bs_set(&mut self, k: usize) -> bool { self.insert(k) }
+    fn bs_reset_next(&mut self) -> Option<usize> { None }
+    fn bs_reset_all(&mut self) -> Vec<i64> {
+        let mut v = vec![];
+        self.remove_all(|k| v.push(k as i64));
+        v
+    }
+    fn bs_cap(&self) -> usize { self.capacity() }
+    const HAS_RESET_NEXT: bool = false;
 }
 macro_rules! bitset_like {
     ([$($g:tt)*], $t:ty) => {
@@ -940,7 +966,7 @@ pub struct BitSetReal<S: BitSetLike, H: Holder<S>> {
 
 impl<S: BitSetLike, H: Holder<S>> Real for BitSetReal<S, H> {
     fn supports(&self, a: &str) -> bool {
-        matches!(a, "set" | "reset_next" | "reset_all")
+        matches!(a, "set" | "reset_all") || (a == "reset_next" && S::HAS_RESET_NEXT)
     }
     fn apply(&mut self, a: &str, i: &[i64], _s: &[i64]) -> Outcome {
         let x = self.h.obj();
@@ -1126,6 +1152,11 @@ fn make_inner(kind: &str, flavour: &str, cap: usize, in_block: bool) -> Result<B
             by_cap!(cap, m)
         }
         ("bitset", "reloc") => boxed(BitSetReal { h: InBlock::<RelocatableBitSet>::new_relocatable(cap)?, _p: PhantomData }),
+        ("bitset", "ucl") => boxed(BitSetReal { h: InBlock::<RelUcl>::new_relocatable(cap)?, _p: PhantomData }),
+        ("bitset", "uclinline") => {
+            macro_rules! m { ($n:literal) => { hold!(BitSetReal, FixUcl::<$n>::new()) }; }
+            by_cap!(cap, m)
+        }
 
         _ => Err(format!("no such container: {kind}/{flavour}")),
     }
